@@ -341,7 +341,25 @@ def to_list_gates(chk, F):
     else:
         for s, t in inline:
             reach, _ = k2.cut_gate(fn, divs, lambda kind, ap, info: ({"false"} if unit_test(ap)[0] == "ne" else {"true"}) if kind == "bool" and unit_test(ap) and unit_test(ap)[0] in ("ne", "eq") and not any(b == (("arg", 2), ()) for b in unit_test(ap)[1]) else None)
-            chk.decide(all(reach.values()), "conformance-gate", fk, "members-conform", fn.where(s), "members compared inline before dividing", "division reachable without the member test")
+            ok = all(reach.values())
+            why = "members compared inline before dividing"
+            if not ok:
+                # a loop over the other members (`for other in &units[1..]`): with a single member there is nothing to compare, so
+                # the division is reachable without the test; what has to hold is that the loop stands before every division, runs
+                # over all the other members, and that its refusing edge (dimensionalities differ) never reaches a division
+                refuse = [tgt for lab, tgt, name in k2.edge_names(fn, s, "bool", fn.switch_info(s)) if name == ("true" if t[0] == "ne" else "false")]
+                never = bool(refuse) and not any(d in fn.reachable(r_) for r_ in refuse for d in divs)
+                nexts = [bb for bb, tt in fn.calls() if "callee" in tt and tt["callee"]["path"].endswith("Iterator>::next") and s in fn.reachable(bb) and bb in fn.reachable(s)]
+                heads = [bb for bb in nexts if all(fn.dominates(bb, d) for d in divs)]
+                src = ap_str(fn.apath(fn.blocks[heads[0]]["term"]["args"][0])) if heads else ""
+                import re as _re2
+                skips = [m.group(2).strip() for m in _re2.finditer(r"::skip\((.*?), ([^,()]*)\)", src)]
+                partial = [w for w in ("chunks", "step_by", "take", "windows", "zip", "filter", "skip_while", "take_while") if ("::" + w + "(") in src] + [x for x in skips if x != "1"]
+                froms = _re2.findall(r"RangeFrom\{(\d+)\}", src)
+                partial += [x for x in froms if int(x) > 1]
+                ok = never and bool(heads) and not partial
+                why = "every other member is compared with the first in a loop that stands before the divisions; a member that differs returns an error"
+            chk.decide(ok, "conformance-gate", fk, "members-conform", fn.where(s), why, "division reachable without the member test")
             # inline loops must not chunk
             chain = " ".join(t["callee"]["path"] for _, t in fn.calls() if "callee" in t)
             bad = [w for w in ("::chunks", "::step_by", "::windows") if w in chain]
